@@ -464,7 +464,7 @@ theorem text_null_unbounded (txt : List Nat) (h : ∀ b ∈ txt, 0 < b ∧ b < 2
       = .ok txt (pre.length + 8 * (txt.length + 1)) := by
   have hf := findZeroUnit_text txt pre rest ((pre ++ bitsOfBytes (txt ++ [0]) ++ rest).length + 1) h
     (by simp only [List.length_append, bitsOfBytes_len, List.length_cons, List.length_nil]; omega)
-  have hfound := textNull_found _ pre.length 1 _ (by decide) (by simpa using hf)
+  have hfound := textNull_found (pre ++ bitsOfBytes (txt ++ [0]) ++ rest) pre.length 1 (pre.length + 8 * txt.length) (by decide) hf
   rw [hfound]
   have e1 : pre.length + 8 * txt.length - pre.length = 8 * txt.length := by omega
   have e2 : 8 * txt.length / 8 = txt.length := by omega
@@ -479,8 +479,7 @@ theorem text_null_unbounded (txt : List Nat) (h : ∀ b ∈ txt, 0 < b ∧ b < 2
     · simp at h1; omega
   rw [hsl, byteVals_bitsOfBytes _ hb]
   congr 1
-  · simp
-  · omega
+  simp
 
 /-- missing terminator: error and the position is restored -/
 theorem text_null_missing (bs : Bits) (pos cb : Nat) (hcb : 1 ≤ cb)
